@@ -270,3 +270,23 @@ package main
 //@     Active(eps1) && Active(eps2) &&
 //@     (forall x string :: Cand(c1, pool1, svc1, eps1, nodes1, x) == Cand(c2, pool2, svc2, eps2, nodes2, x))
 //@     ==> WinnerL2(c1, pool1, svc1, eps1, nodes1, ip, w) == WinnerL2(c2, pool2, svc2, eps2, nodes2, ip, w)
+
+// ---- C20: the per-service peer sets are read by the BGP status reconciler concurrently ----
+//@ guarded_by bgpController.activeAdsMutex : bgpController.activeAds
+//@ func (*bgpController).PeersForService
+//@   lockonly
+//@   requires c != nil && lockstate(c.activeAdsMutex) == 0
+//@   ensures lockstate(c.activeAdsMutex) == 0 && lockframe(c.activeAdsMutex)
+//@   modifies $held
+//@ func (*bgpController).notifyAdsChanged
+//@   lockonly
+//@   requires c != nil && lockstate(c.activeAdsMutex) == 0
+//@   ensures lockstate(c.activeAdsMutex) == 0 && lockframe(c.activeAdsMutex)
+//@   modifies $held
+// the change notifications (a channel send in the speaker) are delivered after the mutex was released
+//@ func (*bgpController).notifyAdsChanged$1
+//@   lockonly
+//@   requires [unlockedCallback] lockstate(c.activeAdsMutex) == 0
+//@   modifies nothing
+//@ func newController
+//@   lockonly
